@@ -191,6 +191,18 @@ theorem scheduled_match_registration (P : Prog) (now : Nat) (ops : List Op) (r :
   have := (runOps_args P ops (init now) r [] h (init_nameInv now) (by intro e he; cases he)).1
   simpa using this
 
+/-- **A rescheduled event runs once, at the new time.**  In a reachable state, rescheduling a
+scheduled event succeeds and changes exactly that entry: same registration (so, by `exactly_once`,
+it still fires at most once), same arguments, the new due time (so, by
+`run_not_early_and_complete`, it fires only after the new time has passed and is not left behind
+once it has); every other entry is untouched. -/
+theorem reschedule_moves_entry (s : Sched) (hi : NameInv s) (e : Entry) (he : e ∈ s.sched) (t : Nat) :
+    (reschedOp s e.name t).2.2 = none ∧
+    (reschedOp s e.name t).2.1 = [Ev.rescheduled e.rid t] ∧
+    (reschedOp s e.name t).1.sched =
+      s.sched.filter (fun x => !(x.name = e.name)) ++ [⟨t, e.name, e.args, e.rid⟩] :=
+  reschedOp_moves s hi e he t
+
 /-! ## non-vacuity -/
 
 /-- fn0 re-adds an overdue one-shot and reschedules "b"; fn1 raises after scheduling; fn2 is quiet -/
